@@ -22,6 +22,14 @@ CHECKS = {
    text="TLC generates behaviours in which source and destination slices are drawn from the same buffer (arbitrary overlap with noalias(); identical or disjoint selections without), on dynamic and compile-time views of ranks 1-4 and all five operators; TLC validates every recorded post-state against the snapshot semantics (right-hand side evaluated on the pre-state).",
    note="Exact small-integer data. Index-tensor and mask views are covered by C19's plan; view-object reuse is not yet in the plan.",
    technique="TLA+ tensor-machine spec; tlc -generate behaviours replayed on the library; TLC trace validation"),
+ "C19": dict(level=MC, design="3/C19",
+   text="TLC generates behaviours with index-tensor views in every overload form (flat-offset index tensor on parents of rank 1-4, per-axis index tensors, index tensor x integer / x fseq), three index element types, reads with repeats, duplicate-free writes with all operators and scalar/tensor/index-view sources (noalias() for same-buffer sources), and boolean masks over every buffer; TLC validates values read and the whole guarded parent block after every write against TensorMachine!AssignSel / MaskAssign / Read.",
+   note="Exact small-integer data. Index vectors are seeded random of length 1..24; the exhaustive length<=4 enumeration of the design is not built. /= is not generated for index views.",
+   technique="TLA+ tensor-machine spec; tlc -generate behaviours replayed on the library; TLC trace validation"),
+ "C20": dict(level=MC, design="3/C20",
+   text="TLC generates behaviours that alternate calls through the owning tensor and through TensorMap / reshape<> (every same-size shape of rank 1-4) / flatten / squeeze handles of the same storage, validated by TLC after every call on the owner's whole guarded block (a handle is (buffer, shape) in the specification, so coherence is checked by construction); plus tocolumnmajor / torowmajor (both functions and both compositions, ranks 1-5) and constructors from raw pointer, std::array, std::vector (row/column-major flag) and nested initializer lists against the row-major / column-major offset operators.",
+   note="Exact small-integer data. Dynamic seq views of rank<=2 TensorMaps and TensorMap = scalar do not compile in any configuration (not offered) and are not generated. Misaligned external buffers are C07's.",
+   technique="TLA+ tensor-machine spec; tlc -generate behaviours replayed on the library; TLC trace validation"),
 }
 NA_REASON = "check not built yet (work in progress in this session; see DESIGN.md section 3 for the planned model)"
 
